@@ -338,7 +338,7 @@ func coqCase(id uint64, c fcase) string {
 			xs[i] = coqOp[o.K]
 		}
 	}
-	return vlib.App("CFS", vlib.N(id), init, vlib.List(xs), tlib.Hs(vlib.UnQs(c.Delivered)))
+	return vlib.App("CFS", vlib.N(id), init, vlib.List(xs), tlib.LS(vlib.UnQs(c.Delivered)))
 }
 
 func nontrivial(ops []op) bool {
